@@ -82,6 +82,16 @@ CLAIMED = {
         "Decides that prototype, .backup call emitters and executor fill-in of orcc describe the same C interface, that the variable name tables match the ORC_VAR_* enumeration without duplicates in all copies, and that writer and readers of the high half of 64-bit parameters use the same slot. Thorough: 400+ generated implementation/header pairs (test.orc, orcfunctions.orc, examples, seven synthetic feature files) x {inline, lazy-init, no-backup, compat} x {JIT, DISABLE_ORC} type-check. Run-time results in the four modes and orc_memcpy/orc_memset behaviour are not decided.",
         "Trusted: clang type checker; the corpus covers the feature classes listed in rules/c07.py (the clause is decided for those inputs only). The thorough tier executes the generator (as the build does), never the generated functions.",
         "DESIGN.md §4 C07"),
+    "C15": (
+        "table-driven mapping check: directive table rows -> handler -> API constructor with argument roles resolved through the callee's parameter names and token provenance of each argument; must-facts (strcmp keyword tests) for sub-keywords and x2/x4 prefixes",
+        "Decides that every directive of the .orc syntax reaches exactly the API constructor it denotes with the size/name/value tokens in the parameters of those names, that .n/.flags sub-keywords and the x2/x4 prefixes select their setters/flags, and that flag word and operands reach orc_program_append_str_n unchanged and in order. Literal parsing and formatting independence are not decided.",
+        "Trusted: reference mapping REFERENCE in rules/c15.py.",
+        "DESIGN.md §4 C15"),
+    "C18": (
+        "constant check of the MXCSR mask, flag/implementation agreement over the opcode table (float member use in the emulator vs FLOAT flags), must-facts at the set_mxcsr call, macro-provenance check (ORC_DENORMAL) of float operand reads and results per frozen family table",
+        "Decides three structural conditions of the flush-to-zero contract: mask 0x8040; every float-computing opcode carries the FLOAT flag that alone triggers set_mxcsr; the emulator (and via C04 the C templates) reads float operands through ORC_DENORMAL and flushes arithmetic results. IEEE results, NaN propagation, conversion saturation and bit-for-bit agreement are not decided.",
+        "Trusted: family table in rules/c18.py (confirmed by reading).",
+        "DESIGN.md §4 C18"),
 }
 
 NOT_YET = "check under construction in this round; not claimed until its rules are exact on the current tree"
